@@ -105,6 +105,14 @@ class Ctx:
         os.makedirs(d)
         return d
 
+    def known(self, signature, case, detail=""):
+        """id of the listed known finding that this failure matches, else None"""
+        for fid in self.active_findings:
+            m = self.mod.FINDINGS.get(fid)
+            if m is not None and m(signature, case, str(detail)):
+                return fid
+        return None
+
     def fail(self, signature, detail, case):
         """Oracle failed.  Known finding / already reported signature -> counted,
         otherwise raises Violation (which Hypothesis shrinks)."""
